@@ -277,6 +277,15 @@ class Module:
                 # keep first definition under the plain name; overloads get a suffix
                 key = qn
                 k = 1
+                prev = self.funcs.get(qn)
+                if prev is not None and any((dotted(d) or "").split(".")[-1] == "overload" for d in getattr(prev.node, "decorator_list", [])):
+                    # typing.overload stubs give way to the implementation under the plain name
+                    j = 1
+                    while f"{qn}#overload{j}" in self.funcs:
+                        j += 1
+                    prev.qualname = f"{qn}#overload{j}"
+                    self.funcs[prev.qualname] = prev
+                    del self.funcs[qn]
                 while key in self.funcs:
                     k += 1
                     key = f"{qn}#{k}"
